@@ -43,6 +43,19 @@ theorem dvd_mat_gcd (m : Mat4) (z : ℤ) (h : ∀ r c, r < 4 → c < 4 → z ∣
 
 theorem ibzGcd_nonneg (a b : ℤ) : 0 ≤ ibzGcd a b := by unfold ibzGcd; exact Int.natCast_nonneg _
 
+theorem foldl_gcd_nonneg : ∀ (l : List ℤ) (init : ℤ), 0 ≤ init → 0 ≤ l.foldl ibzGcd init := by
+  intro l
+  induction l with
+  | nil => intro init h; exact h
+  | cons a t ih => intro init _; simp only [List.foldl_cons]; exact ih _ (ibzGcd_nonneg _ _)
+
+/-- `ibz_mat_4x4_gcd` is non-negative (the scan starts with gcd(m₀₀, m₀₀) = |m₀₀|) -/
+theorem mat_gcd_nonneg (m : Mat4) : 0 ≤ m.gcd := by
+  obtain ⟨⟨a00, a01, a02, a03⟩, r1, r2, r3⟩ := m
+  unfold Mat4.gcd
+  simp only [Mat4.toList, Vec4.toList, List.cons_append, List.foldl_cons]
+  exact foldl_gcd_nonneg _ _ (ibzGcd_nonneg _ _)
+
 /-- the output of `quat_lattice_reduce_denom` is reduced -/
 theorem latReduceDenom_reduced (l : SqiModel.Quat.Lattice) (hd : l.denom ≠ 0) : Reduced (latReduceDenom l) := by
   have hg0 : ibzGcd l.basis.gcd l.denom ≠ 0 := SqiProofs.QuatAlg.gcd_ne_zero_right hd
